@@ -30,6 +30,7 @@ def main():
     name = None
     tier = "quick"
     also = []
+    race = []
     while args:
         a = args.pop(0)
         if a == "--name":
@@ -38,6 +39,8 @@ def main():
             tier = args.pop(0)
         elif a == "--also":
             also = args.pop(0).split(",")
+        elif a == "--race":
+            race = ["-race"]
     name = name or ("%s-%s" % (pid, os.path.basename(os.path.normpath(src))))
     patch = os.path.join(src, "patch.diff")
     demo = open(os.path.join(src, "demo_test.go")).read()
@@ -69,11 +72,11 @@ def main():
             shutil.copy(os.path.join(src, "demo_test.go"), os.path.join(d, sub, "zz_seeded_demo_test.go"))
         m = re.search(r'func (Test\w+)\(', demo)
         runpat = "^(%s)$" % "|".join(re.findall(r'func (Test\w+)\(', demo))
-        rc_m, out_m = run(["go", "test", "-vet=off", "-count=1", "-run", runpat, "./" + sub], mut)
-        rc_c, out_c = run(["go", "test", "-vet=off", "-count=1", "-run", runpat, "./" + sub], clean)
+        rc_m, out_m = run(["go", "test", "-vet=off", "-count=1"] + race + ["-run", runpat, "./" + sub], mut)
+        rc_c, out_c = run(["go", "test", "-vet=off", "-count=1"] + race + ["-run", runpat, "./" + sub], clean)
         meta["demo_fails_with_change"] = rc_m != 0
         meta["demo_passes_without_change"] = rc_c == 0
-        meta["demo_cmd"] = "go test -vet=off -count=1 -run '%s' ./%s" % (runpat, sub)
+        meta["demo_cmd"] = "go test -vet=off -count=1 %s-run '%s' ./%s" % ("-race " if race else "", runpat, sub)
         if rc_m == 0 or rc_c != 0:
             print("DEMONSTRATION NOT CONFIRMED: with change rc=%d, without rc=%d\n%s\n----\n%s" % (rc_m, rc_c, out_m[-1500:], out_c[-1500:]))
             return 3
